@@ -19,7 +19,7 @@ RULE = ("each case: k<=3, N<=5, 1-4 segments (max segment size smaller than the 
         "Non-trivial = at least one damaged share and |G| within 1 of k or of N; distinct by whole case.")
 LEVEL_TEXT = "Fault-plan search over the share format with an independent good-share model; repair is validated by reading through the original read cap."
 ASSUMPTIONS = ["servers store honestly; one server may fail reads or drop the connection during the check", "a share whose container header is cut short makes its server error out and is not generated here (see C03)"]
-REQUIRED_CLASSES = ["server-fault-during-check", "verify", "no-verify", "healthy", "unhealthy-recoverable", "unrecoverable", "repair-ok", "corrupt-detected", "multi-segment", "unused-field-damage", "read-from-new-shares-alone"]
+REQUIRED_CLASSES = ["server-fault-during-repair", "server-fault-during-check", "verify", "no-verify", "healthy", "unhealthy-recoverable", "unrecoverable", "repair-ok", "corrupt-detected", "multi-segment", "unused-field-damage", "read-from-new-shares-alone"]
 BUDGET = {"quick": 900, "thorough": 7200}
 DAMAGE = ["delete", "delete", "flip-all-blocks", "bad-share-version", "flip-data-byte", "flip-block-hash", "flip-share-hash", "flip-ueb", "flip-cthash", "trunc-mid-data", "trunc-end-1", "flip-unused", "reblock", "reblock-one"]
 UNUSED = {"flip-unused"}
@@ -42,7 +42,10 @@ def cases(draw):
     # a server may answer the share query and then fail every later read (its shares can then not be verified), or fail from the j-th read on / drop the connection
     faults = draw(st.lists(st.tuples(st.integers(0, n - 1), st.sampled_from(["fail-reads-from", "fail-reads-from", "disconnect-after"]), st.sampled_from([0, 0, 1, 3, 8])).map(list), max_size=1)) \
         if draw(st.integers(0, 3)) == 0 else []
-    return {"hsalt": draw(st.integers(0, 15)), "k": k, "n": n, "seg": seg, "size": size, "servers": servers, "place": [[i, i] for i in range(n)], "damage": damage, "faults": faults,
+    # a server that accepts the repairer's allocation and then fails the writes (from the j-th on) or the close of the new share
+    upfaults = draw(st.lists(st.tuples(st.integers(0, servers - 1), st.sampled_from(["fail-upload-writes", "fail-upload-close"]), st.sampled_from([0, 0, 1, 2])).map(list), max_size=2)) \
+        if draw(st.integers(0, 2)) == 0 else []
+    return {"hsalt": draw(st.integers(0, 15)), "k": k, "n": n, "seg": seg, "size": size, "servers": servers, "place": [[i, i] for i in range(n)], "damage": damage, "faults": faults, "upfaults": upfaults,
             "verify": draw(st.booleans()), "sched": draw(st.lists(st.integers(0, 9), max_size=30))}
 
 
@@ -103,6 +106,16 @@ def run_case(case, ctx):
             if used_damage & present:
                 classes.add("corrupt-detected")
         # ---- repair through the verify cap only
+        from allmydata.immutable.layout import WriteBucketProxy
+        saved_defaults = WriteBucketProxy.__init__.__defaults__
+        for (sidx_, kd_, arg_) in case.get("upfaults", []):
+            srv_ = g.servers[sidx_ % len(g.servers)]
+            if kd_ == "fail-upload-writes":
+                srv_.fail["write"] = set(range(arg_, arg_ + 100000))
+                WriteBucketProxy.__init__.__defaults__ = (64,)       # small client-side write batch, so that a share is written in several calls
+            else:
+                srv_.fail["close"] = "all"
+            classes.add("server-fault-during-repair")
         rep = g.add_client()
         rnode = rep.nodemaker.create_from_cap(vcap)
         r = g.sched.run_until(rnode.check_and_repair(Monitor(), verify=verify), maxsteps=50000)
@@ -145,6 +158,10 @@ def run_case(case, ctx):
         else:
             classes.add("repair-error:" + type(r[1]).__name__)
     finally:
+        try:
+            WriteBucketProxy.__init__.__defaults__ = saved_defaults
+        except NameError:
+            pass
         g.stop()
     G = len(good_lo)
     nt = bool(sc.damaged) and (abs(G - k) <= 1 or abs(G - n) <= 1)
